@@ -731,6 +731,14 @@ def oracle(ctx):
                  "'exact_zero_sample' for C03 in known_findings.json" % (bad, len(zc)))
 
 
+def search(ctx):
+    """Intensified search after a broken tie: a larger sweep of the same stream, windows up to 24 h."""
+    cases = gen_cases(ctx, 260 if ctx.tier == "quick" else 600, 24 if ctx.tier == "quick" else 72)
+    _run_oracle(ctx, cases, "search")
+    if zero_regime_enabled():
+        _run_oracle(ctx, gen_zero_cases(ctx, 20), "search")
+
+
 def zero_regime_enabled():
     known = lib.load_known()
     for k in known.get("known", []) + known.get("fixed", []):
